@@ -8,6 +8,7 @@ package gen
 import (
 	"encoding/base64"
 	"encoding/json"
+	"fmt"
 	"math/big"
 	"math/rand"
 	"strings"
@@ -27,8 +28,9 @@ type Ctx struct {
 	H      int64      // height being planned
 	S      hist.State // committed state after block H-1
 	Memo   *txb.Memo
-	TimeMs int64 // time of block H-1
-	Vals   []string // 0lt addresses of validators currently in Tendermint's set (may be nil)
+	TimeMs int64                         // time of block H-1
+	Vals   []string                      // 0lt addresses of validators currently in Tendermint's set (may be nil)
+	FeeFn  func(kind string) *action.Fee // optional fee override (nil result = default)
 }
 
 // Script plans transactions block by block.
@@ -63,7 +65,16 @@ func ConsAccount(v *world.Validator) *world.Account {
 
 // Build makes a signed transaction and its spec in one go.
 func Build(c *Ctx, kind string, msg action.Msg, note string, signers ...*world.Account) hist.TxSpec {
-	return BuildFee(c, kind, msg, txb.DefaultFee(), note, signers...)
+	fee := txb.DefaultFee()
+	if c.FeeFn != nil {
+		if f := c.FeeFn(kind); f != nil {
+			sp := BuildFee(c, kind, msg, *f, note, signers...)
+			sp.Trait = fmt.Sprintf("gas=%d", f.Gas)
+			sp.Field = "fee"
+			return sp
+		}
+	}
+	return BuildFee(c, kind, msg, fee, note, signers...)
 }
 
 func BuildFee(c *Ctx, kind string, msg action.Msg, fee action.Fee, note string, signers ...*world.Account) hist.TxSpec {
